@@ -31,13 +31,14 @@ def descriptions(ctx):
     lib = dflow_gen.library(n_small=2, n_big=ctx.pick(3, 4))
     if ctx.quick:
         # the heavier shapes (nested scatter, nested scatter with jobs) are explored on the thorough tier only
-        lib = [d for d in lib if d["name"] not in ("nested", "nestedx", "sxg3t")]
+        lib = [d for d in lib if d["name"] not in ("nested", "nestedx")]
     descs = []
     for d in lib:
         descs.append(d)
         if "jobs" in d["classes"] and "dead-end" not in d["classes"]:
-            if ctx.quick and d["name"] in ("xx2t", "sfx2"):
-                continue        # their single-failure variants are explored on the thorough tier
+            if d["name"] == "sfx2" or (ctx.quick and d["name"] == "xx2t"):
+                continue        # sfx2: failure-free only (its failure variants multiply the exhaustive batch several times);
+                                # xx2t: single-failure variants on the thorough tier
             descs.extend(dflow_gen.with_failures(d))
     rng = ctx.rng("random-graphs")
     for i in range(ctx.pick(6, 40)):
@@ -72,8 +73,14 @@ def model_check(ctx, descs):
     """Exhaustive TLC runs over ALL generated networks at once (run-to-quiescence interleaving):
     safety invariants with action coverage, then liveness (ExecutorEnds, EveryStepEnds) under weak fairness."""
     files = {"MC_DF.tla": dt.constants_module(descs), "MC_DF.cfg": dt.cfg(liveness=False)}
-    r = ctx.tlc("Dataflow", "MC_DF", "MC_DF.cfg", files=files, timeout=3000)
-    if not r.ok:
+    # quick: the batch must be explored completely (machinery error otherwise); thorough: the (much larger) batch is
+    # time-boxed -- breadth-first, so everything up to the reached depth is covered -- and the box is recorded
+    r = ctx.tlc("Dataflow", "MC_DF", "MC_DF.cfg", files=files, timeout=ctx.pick(3000, 1500), allow_timeout=not ctx.quick)
+    if r.timed_out and r.error is None:
+        ctx.count("exhaustive_batch_time_boxed")
+        ctx.assumptions.append("thorough tier: the exhaustive run over the whole batch of networks was stopped by its time box "
+                               "(breadth-first: complete up to the depth reached); the quick tier explores its batch completely")
+    elif not r.ok:
         return r
     # vacuity guard: action coverage on a sample of the networks (coverage statistics over the whole batch exhaust the heap)
     sample = [d for d in descs if d["name"] in ("sxg", "sdiam", "scond", "dot")] + [d for d in descs if d.get("fail")][:2]
@@ -108,7 +115,7 @@ def run_all(ctx, focus):
             cls_count[c] = cls_count.get(c, 0) + 1
     ctx.extra["graph_classes"] = cls_count
     r = model_check(ctx, descs)
-    if not r.ok:
+    if not r.ok and not (r.timed_out and r.error is None):
         # a model-level violation is a specification problem or a defect to be confirmed on the code: never a verdict by itself
         which = r.trace[-1]["state"].get("net") if r.trace else None
         ctx.require(False, "Dataflow model violates %s %s on generated network %s (%s)" % (
